@@ -7,5 +7,5 @@ Require Import MV.Policy.PolicySyntax MV.Policy.Policy MV.Policy.Spec MV.Generat
 
 Theorem unsupported_spec : forall u : unsup_sit,
   first_match (unsup_atoms u) unsupported_gen = Some (doc_unsupported u).
-Proof. exact PolicyProofs.unsupported_spec. Qed.
+Proof. apply unsupported_sound. vm_compute; reflexivity. Qed.
 Print Assumptions unsupported_spec.
